@@ -111,3 +111,28 @@ def jobs(tier):
     for w in widths:
         out += more_jobs(w)
     return out
+
+
+def muldiv_jobs(w, tier):
+    out = []
+    wt = WORDS[w][0]
+    C, Q = cls(w), qcls(w)
+    S = self_obj(w)
+    V, OV = val(), val(old=True)
+    out.append(mk(w, 'Multiply', Q + '::Multiply', C + '_Multiply',
+                  dict(requires=[S, wf(), '%s * (bv_t)multiplier < LIMIT' % V], ensures=[wf(), '%s == %s * (bv_t)multiplier' % (V, OV)], assigns=frame()),
+                  'multiplication by a word is the exact product', timeout=1500))
+    out.append(mk(w, 'Divide', Q + '::Divide', C + '_Divide',
+                  dict(requires=[S, wf(), 'divisor != 0'], ensures=[wf(), '%s == %s / (bv_t)divisor' % (V, OV), '(bv_t)__CPROVER_return_value == %s %% (bv_t)divisor' % OV], assigns=frame()),
+                  'division by a word gives the exact quotient and remainder', timeout=1500))
+    return out
+
+
+_jobs2 = jobs
+
+
+def jobs(tier):
+    out = _jobs2(tier)
+    if tier == "thorough":
+        out += muldiv_jobs(8, tier)
+    return out
